@@ -1,7 +1,7 @@
 /-
 Small-step interleaving model of `windpyutils/parallel/own_proc_pools.py` (`FunctorPool`, `FactoryFunctorPool`, after the
 repairs D15–D17): the consumer (the caller's thread: `__enter__`, `until_all_ready`, a sequence of `imap` /
-`imap_unordered` calls, `__exit__`), the feeding thread `SendWorkThread`, the `ReplaceWorkerThread` and the worker
+`imap_unordered` calls — optionally each with an `until_all_ready()` in its middle, `Cfg.readyMid` —, `__exit__`), the feeding thread `SendWorkThread`, the `ReplaceWorkerThread` and the worker
 processes.  One model step = one *visible operation* (queue put/get/qsize, event set/clear/is_set/wait, lock
 acquire/release, read/write of `_sending_work` / `_data_cnt`, start/join) together with the thread-local code that follows
 it up to the next visible operation — exactly the scheduling points of the controlled scheduler that runs the real code.
@@ -37,6 +37,7 @@ structure Cfg where
   calls     : List Call
   beginFault : List Nat         -- wids whose `begin()` raises
   itemFault  : List (Nat × Nat) -- (wid, k): the functor of worker `wid` raises at its k-th chunk (0-based)
+  readyMid  : Bool := false     -- caller invokes `until_all_ready()` in EVERY call, right after the call's first result
   deriving Repr
 
 /-- program counters of the consumer -/
@@ -68,6 +69,9 @@ inductive CPc
   | rJoin
   | exitPut (i : Nat)         -- `work_queue.put(None, timeout)`, i-th of len(procs); leaves the loop when all have exited
   | exitJoin (i : Nat)        -- `procs[i].join()`
+  | midReady (i : Nat) (wid : Nat)
+                              -- mid-call `until_all_ready()`: `p.begin_finished.wait()` where `p` (worker `wid`) is the
+                              -- i-th element the loop `for p in self.procs` has fetched (see `enterMid` below)
   | done
   deriving DecidableEq, Repr
 
@@ -215,15 +219,44 @@ def consumeBatch (s : St) : St :=
       { s with finished := s.finished + s.batch.length, out := s.out ++ s.batch.map (fun j => (s.callNo, j)),
                batch := [], woken := false }
 
-/-- after `_get_results` returned: process the batch, then the flow-control test (ordered only) or the loop test -/
-def afterResults (s : St) : St :=
-  let s := consumeBatch s
+/-- the batch has been processed: the flow-control test (ordered only) or the loop test -/
+def afterBatch (s : St) : St :=
   match s.cur with
   | some call =>
     if call.ordered then
       if bufferFull s then { s with cpc := .flowClear } else { s with cpc := .flowIsSet }
     else { s with cpc := .rdSending }
   | none => { s with cpc := .rdSending }
+
+/-- `until_all_ready()` called by the caller in the MIDDLE of a call (`Cfg.readyMid`): the generator is suspended at the
+`yield` of the first result of the call, the caller runs `for p in self.procs: p.begin_finished.wait()`, then resumes the
+generator.  The replace thread is alive at that time and exchanges workers by `self.procs[i] = new`.
+
+Python semantics of the loop: a list iterator keeps the list and an index; each `next()` reads `procs[index]` from the LIVE
+list at that moment (no snapshot is taken) and stops when `index ≥ len(procs)` (the replace thread assigns by index only, the
+length never changes).  The element is fetched by the thread-local code that FOLLOWS the previous visible operation; the
+visible operation `p.begin_finished.wait()` is then performed on the object `p` that was fetched, whatever the replace thread
+has stored in that slot in the meantime.  Hence the program counter carries the wid that was fetched: `midReady i wid` =
+"about to wait for worker `wid`, which was `procs[i]` when the loop arrived at slot `i`" (a predecessor that has been
+replaced since then has completed `begin()` long ago — it retired —, so that wait returns at once; its successor in the slot
+is NOT waited for).  This is exactly what the controlled scheduler observes (`W<wid>.begin_finished.wait` is announced with
+the fetched object), and every other real timing of the fetch equals a schedule of this model in which the previous wait is
+performed later (a wait that can return can still return later: `begin_finished` is never cleared again).
+
+The rest of the batch (the remaining elements of the first chunk, further chunks) is processed by the generator after the
+wait; that code is thread-local and touches only `buffer`, `finished`, `out`, which nobody else reads, so the model processes
+the whole batch first (`consumeBatch`) and performs the waits afterwards; the flow-control test is evaluated after the wait,
+as in the code. -/
+def enterMid (s : St) : St :=
+  match s.procs[0]? with
+  | some wid => { s with cpc := .midReady 0 wid }
+  | none => afterBatch s
+
+/-- after `_get_results` returned: process the batch; if this emitted the first chunk of the call and the caller's program
+says so, `until_all_ready()` (mid-call); then the flow-control test (ordered only) or the loop test -/
+def afterResults (s : St) : St :=
+  let s' := consumeBatch s
+  if s.cfg.readyMid = true ∧ s.finished = 0 ∧ 0 < s'.finished then enterMid s' else afterBatch s'
 
 /-- start of the next call or of `__exit__` -/
 def toNextCall (s : St) : St :=
@@ -339,6 +372,16 @@ def stepC (s : St) : Option St :=
     | none => none
     | some wid =>
       if workerExited s wid then some { s with cpc := exitJoinFrom s (s.procs.length + 1) (i + 1) } else none
+  | .midReady i wid =>
+    -- `p.begin_finished.wait()` for the fetched `p`; then the iterator's `next()`: `procs[i + 1]` of the live list
+    match getWorker s wid with
+    | none => none
+    | some w =>
+      if w.bf then
+        (match s.procs[i + 1]? with
+         | some wid' => some { s with cpc := .midReady (i + 1) wid' }
+         | none => some (afterBatch s))
+      else none
   | .done => none
 
 def stepF (s : St) : Option St :=
